@@ -147,7 +147,111 @@ def check_op(fn, pv, ins):
         return 'VIOLATION', ('%s can wrap: no branch on any path to it bounds %s from above (e.g. %s = %s%s); the wrapped, smaller value is then '
                              'used as a size' % (expr, ' or '.join('`%s`' % u for u in unb), unb[0], mx,
                                                  '' if ins.op == 'add' else '/2+1 with the other factor >= 2'))
+    w = find_witness(fn, ins)
+    if w:
+        return 'VIOLATION', '%s wraps for %s although a guard is present: the guard does not cover this operation' % (
+            expr, ', '.join('%s = %s' % (k, describe(fn, '#%d' % v)) for k, v in sorted(w.items())))
     return 'UNDECIDED', '%s: operands are bounded by some guard, but the no-wrap goal is not derivable from the facts' % expr
+
+
+MAXU = (1 << 64) - 1
+CANDS = [0, 1, 2, 3, 4, 7, 8, 16, 24, MAXU, MAXU - 1, MAXU - 7, MAXU - 22, MAXU - 23, MAXU - 24, MAXU // 2, MAXU // 2 + 1, MAXU // 4 + 1, MAXU // 8, MAXU // 16 + 2]
+
+
+def find_witness(fn, ins, limit=4000):
+    """try a few values for the integer parameters the operands depend on and walk the CFG with them
+    (constant propagation; conditions that depend on memory or calls are taken both ways): returns
+    {param: value} for which the operation is reached and wraps, or None.  Used only to turn an
+    otherwise UNDECIDED obligation into a VIOLATION with a concrete input."""
+    import itertools
+    fam = family(fn, ins.ref)
+    params = sorted(p for p in fam if isinstance(p, str) and is_arg(p))
+    if not params or len(params) > 3:
+        return None
+    bits = ins.x.get('bits') or 64
+    mask = (1 << bits) - 1
+
+    def ev(ref, env, depth=0):
+        c = const_int(ref)
+        if c is not None:
+            return c
+        if isinstance(ref, str) and ref in env:
+            return env[ref]
+        i = fn.get(ref) if isinstance(ref, str) else None
+        if i is None or depth > 20:
+            return None
+        if i.op in ('add', 'sub', 'mul', 'udiv', 'urem', 'shl', 'lshr', 'and', 'or', 'xor'):
+            a, b = ev(i.o[0], env, depth + 1), ev(i.o[1], env, depth + 1)
+            if a is None or b is None:
+                return None
+            m = (1 << (i.x.get('bits') or 64)) - 1
+            try:
+                r = {'add': a + b, 'sub': a - b, 'mul': a * b, 'udiv': a // b if b else None, 'urem': a % b if b else None,
+                     'shl': a << b if b < 64 else 0, 'lshr': a >> b if b < 64 else 0, 'and': a & b, 'or': a | b, 'xor': a ^ b}[i.op]
+            except Exception:
+                return None
+            return None if r is None else r & m
+        if i.op in ('zext', 'trunc'):
+            a = ev(i.o[0], env, depth + 1)
+            return None if a is None else a & ((1 << (i.x.get('bits') or 64)) - 1)
+        if i.op == 'icmp':
+            a, b = ev(i.o[0], env, depth + 1), ev(i.o[1], env, depth + 1)
+            if a is None or b is None:
+                return None
+            p = i.pred
+            return int({'eq': a == b, 'ne': a != b, 'ult': a < b, 'ule': a <= b, 'ugt': a > b, 'uge': a >= b}.get(p, None)) if p in ('eq', 'ne', 'ult', 'ule', 'ugt', 'uge') else None
+        return None
+
+    def reaches(env):
+        seen = set()
+        st = [(fn.entry, None)]
+        while st:
+            b, pred = st.pop()
+            key = (b.idx, pred.idx if pred else -1)
+            if key in seen:
+                continue
+            seen.add(key)
+            if b is ins.block:
+                return True
+            t = b.term
+            if t.op == 'br' and t.o:
+                c = t.o[0]
+                ci = fn.get(c) if isinstance(c, str) else None
+                v = None
+                if ci is not None and ci.op == 'phi' and pred is not None:
+                    for o, bb in zip(ci.o, ci.x['bb']):
+                        if bb == pred.name:
+                            v = ev(o, env)
+                elif ci is not None and ci.op != 'phi':
+                    v = ev(c, env)
+                else:
+                    v = const_int(c)
+                succ = t.x['succ']
+                if v is None:
+                    st.append((fn.bb[succ[0]], b))
+                    st.append((fn.bb[succ[1]], b))
+                else:
+                    st.append((fn.bb[succ[0] if v else succ[1]], b))
+            else:
+                for sx in b.succ:
+                    if sx.insts and sx.term.op == 'unreachable' and len(sx.insts) <= 2:
+                        continue
+                    st.append((sx, b))
+        return False
+
+    n = 0
+    for vals in itertools.product(CANDS, repeat=len(params)):
+        n += 1
+        if n > limit:
+            break
+        env = dict(zip(params, vals))
+        a, b = ev(ins.o[0], env), ev(ins.o[1], env)
+        if a is None or b is None:
+            continue
+        wraps = (ins.op == 'add' and a + b > mask) or (ins.op == 'mul' and a * b > mask) or (ins.op == 'shl' and (a << b) > mask) or (ins.op == 'sub' and b > a)
+        if wraps and reaches(env):
+            return {fn.argname(p): v for p, v in env.items()}
+    return None
 
 
 def find_sinks(fn, length_fields=(), compare=False, taint=None, skip_alloc=False):
